@@ -332,9 +332,15 @@ def gen_tree_case(rng, i):
 def gen_uproj_case(rng, i):
   depth = pick(rng, [0, 0, 1, 1, 2])
   T = tg.gen_tree(rng, depth, lengths=[1, 2, 3, 4], classes=UPROJ_CLASSES, mf_classes=UPROJ_CLASSES, fanout=3)
+  if i % 3 == 1:   # a set whose aggregate is pinned in some or all slots (equality constraints), few adaptors, no label balancing
+    T = tg.gen_tree(rng, pick(rng, [1, 1, 2]), lengths=[1, 2, 3, 4], classes=UPROJ_CLASSES, mf_classes=UPROJ_CLASSES, fanout=3,
+                    sbounds=pick(rng, ['eq', 'mixed']), p_subbal=0.0, p_adaptor=0.1)
   flat = [v for row in tg.gen_matrix(rng, T) for v in row]
   p = [v + pick(rng, [F(0), dy(rng, -3, 3, 3), dy(rng, -1, 1, 3)]) for v in flat]
-  return {'kind': 'uproj', 't': T, 'p': p}
+  # a third of the cases: the point is derived (in observe) from a feasible flow pushed INSIDE the box along the equality rows, so that
+  # every inequality holds and every equality has a surplus >= 0 (one-sided violation: a feasibility test that reads '== 0' as '>= 0'
+  # takes such a point for feasible)
+  return {'kind': 'uproj', 't': T, 'p': p, 'eqpush': i % 3 == 1}
 
 
 def gen_cases(rng, tier):
@@ -511,7 +517,7 @@ def observe(c):
     from device_kit.utils import project
     dev = tg.build_tree(c['t'])
     desc = cc.linear_description(dev)
-    p = np.array(fl(c['p']))
+    p = uproj_point(c, desc)
     ref = cc.nearest(p, desc)
     if ref is None or not desc[6] or cc.degenerate(desc) or cc.licq_fails(ref, desc):
       return {'skip': 'empty feasible set' if ref is None else 'non-affine constraint' if not desc[6] else 'dependent active constraints', 'status': -1}
@@ -519,8 +525,25 @@ def observe(c):
     x, o = project(p.reshape(dev.shape), x0.copy(), dev.bounds, dev.constraints)
     if tuple(x.shape) != tuple(x0.shape):
       raise AssertionError('utils.project result shape %s, start shape %s' % (x.shape, x0.shape))
-    return {'success': bool(o.success), 'status': int(getattr(o, 'status', -2)), 'x': fr(x.reshape(-1)), 'ref': fr(ref), 'desc': desc}
+    return {'success': bool(o.success), 'status': int(getattr(o, 'status', -2)), 'x': fr(x.reshape(-1)), 'ref': fr(ref), 'desc': desc, 'p': fr(p)}
   raise AssertionError(k)
+
+
+def uproj_point(c, desc):
+  """The point handed to utils.project: the generated one, or (eqpush) a feasible flow pushed inside the box along the equality rows
+  until every equality has a surplus >= 0 and at least one a surplus > 0, all inequalities still holding."""
+  p = np.array(fl(c['p']))
+  if c.get('eqpush') and len(desc[3]):
+    lo_, hi_, Aeq_, beq_, G_, h_, _ = desc
+    x0_ = cc.feasible_point(desc)
+    if x0_ is not None:
+      d_ = Aeq_.sum(axis=0)
+      for t_ in (0.5, 0.25, 0.125, 0.03125):
+        q_ = np.clip(np.round(np.clip(x0_ + t_ * d_, lo_, hi_) * 4096) / 4096, lo_, hi_)   # dyadic where the bounds are
+        r_ = Aeq_.dot(q_) - beq_
+        if (len(h_) == 0 or (G_.dot(q_) - h_ >= 1e-9).all()) and (r_ >= -1e-12).all() and (r_ > 1e-6).any():
+          return q_
+  return p
 
 
 def coq_pres(o, conv=lambda v: cq(v)):
@@ -551,7 +574,7 @@ def coq_case(c, o):
     bnd = [(fr(float(a)), fr(float(b))) for a, b in zip(lo, hi)]
     eqs = [(fr(np.array(w)), fr(float(v))) for w, v in zip(Aeq, beq)]
     ins = [(fr(np.array(w)), fr(float(v))) for w, v in zip(G, h)]
-    return '(KProj %s %s %s %s %s %s)' % (cq(bnd), cq(eqs), cq(ins), cq(c['p']), cq(o['x']), cq(o['ref']))
+    return '(KProj %s %s %s %s %s %s)' % (cq(bnd), cq(eqs), cq(ins), cq(o.get('p', c['p'])), cq(o['x']), cq(o['ref']))
   raise AssertionError(k)
 
 
@@ -568,7 +591,7 @@ def nontrivial(c, o):
   if k == 'tree':
     return o['res'] == 'ValueError' or [v for r in o['res'][1] for v in r] != list(c['s'])
   if k == 'uproj':
-    return 'skip' not in o and o['success'] and o['x'] != list(c['p'])
+    return 'skip' not in o and o['success'] and o['x'] != list(o.get('p', c['p']))
   return False
 
 
@@ -602,7 +625,7 @@ def classify(c, o):
     ks += ['tree-depth:%d' % tg.depth(c['t']), 'input:' + c['shape'], 'fill:' + c['fill'], 'tree:' + tagof(o['res'])]
     ks += ['has:' + x for x in tg.kinds(c['t'])]
   elif k == 'uproj':
-    ks += ['slsqp-status:%d' % o['status'], 'tree-depth:%d' % tg.depth(c['t'])] + (['uproj-skipped:' + o['skip']] if 'skip' in o else [])
+    ks += ['slsqp-status:%d' % o['status'], 'tree-depth:%d' % tg.depth(c['t'])] + (['uproj-point:equality-surplus'] if c.get('eqpush') and 'p' in o and o['p'] != list(c['p']) else []) + (['uproj-skipped:' + o['skip']] if 'skip' in o else [])
   return ks
 
 
@@ -635,7 +658,7 @@ def case_to_json(c):
   elif k == 'tree':
     d.update({'t': tg.tree_to_json(c['t']), 's': core.jsonable(c['s']), 'shape': c['shape'], 'fill': c['fill']})
   elif k == 'uproj':
-    d.update({'t': tg.tree_to_json(c['t']), 'p': core.jsonable(c['p'])})
+    d.update({'t': tg.tree_to_json(c['t']), 'p': core.jsonable(c['p']), 'eqpush': bool(c.get('eqpush'))})
   return d
 
 
@@ -651,7 +674,7 @@ def case_from_json(j):
   if k == 'tree':
     return {'kind': k, 't': tg.tree_from_json(j['t']), 's': fv(j['s']), 'shape': j['shape'], 'fill': j.get('fill', '?')}
   if k == 'uproj':
-    return {'kind': k, 't': tg.tree_from_json(j['t']), 'p': fv(j['p'])}
+    return {'kind': k, 't': tg.tree_from_json(j['t']), 'p': fv(j['p']), 'eqpush': bool(j.get('eqpush'))}
   raise AssertionError(k)
 
 
@@ -812,7 +835,7 @@ def oracle_uproj(c, skip_degenerate=True):
   from device_kit.utils import project
   dev = tg.build_tree(c['t'])
   desc = cc.linear_description(dev)
-  p = np.array(fl(c['p']))
+  p = uproj_point(c, desc)
   ref = cc.nearest(p, desc)
   if ref is None or not desc[6] or (skip_degenerate and (cc.degenerate(desc) or cc.licq_fails(ref, desc))):
     return None      # linearly dependent active constraints: SLSQP's success flag is unreliable there (reported finding)
